@@ -20,10 +20,10 @@ GUARD_VISITED = os.environ.get("VERIF_MMST_GUARD_VISITED", "1") == "1"  # repair
 class A(Adapter):
     name = "mmst"
     lean = "mmst"
-    serves = {"C04", "C05", "C06", "C10", "C11", "C12"}
+    serves = {"C01", "C04", "C05", "C06", "C10", "C11", "C12"}
     terminate_on_invalid = False
     max_steps = 32
-    ops = ("state", "step", "judge", "instance")
+    ops = ("state", "step", "judge", "instance", "bounds")
     state_fields = ["node_types", "adj_matrix", "connected_nodes", "connected_nodes_index", "nodes_to_connect",
                     "node_edges", "positions", "position_index", "action_mask", "finished_agents", "step_count"]
 
